@@ -1,7 +1,11 @@
 import LC.Props.C09
+import LC.Props.C09Footprint
 #print axioms LC.Conc.readonly_no_race
 #print axioms LC.Conc.readonly_reads_initial
 #print axioms LC.Conc.protocol_at_most_one_write
 #print axioms LC.Conc.protocol_no_race
 #print axioms LC.Conc.protocol_reads_agree
 #print axioms LC.Conc.racy_unlocked_check
+#print axioms LC.Spec.FootprintExpect.footprint_current
+#print axioms LC.Spec.FootprintExpect.match_does_not_update_dict
+#print axioms LC.Spec.FootprintExpect.write_targets
